@@ -1108,6 +1108,7 @@ func (sb *seqbag) TrimNames(namemap map[string]string, size int) error {
 			for ok2 {
 				id++
 				if id > 99 {
+					sb.rebuildIndex()
 					return errors.New("More than 100 identical short names (" + newname + "), cannot shorten the names")
 				}
 				_, ok2 = shortmap[fmt.Sprintf("%s%02d", newname, id)]
